@@ -154,10 +154,18 @@ void harness_run (void)
 								if (have_seed < 0) have_seed = build_seed (f, ch, preset) ;
 								if (vl_case ("%s", rp))
 								{	int datasize = parse_int (rp, "datasize=") ; SNDFILE *sf = open_state (f, ch, modes [mi], preset) ; unsigned char *data = NULL ; int r ;
+									int query = is_query (cname), strc = is_string_cmd (cname) ; uint64_t meta0 = 0, dev0 = 0 ; char rs [96] ;
+									snprintf (rs, sizeof (rs), "%s|%s", cname, modes [mi] == 0 ? "null" : modes [mi] == SFM_READ ? "read" : modes [mi] == SFM_WRITE ? "write" : "rdwr") ;
 									make_image (cname, ch) ;
-									if (kind > 0) { data = malloc (datasize) ; if (kind == 1) memcpy (data, image, datasize < (int) sizeof (image) ? datasize : (int) sizeof (image)) ; else memset (data, 0xFF, datasize) ; }
+									if (kind > 0) { data = malloc (datasize) ; if (kind == 1) memcpy (data, image, datasize < (int) sizeof (image) ? datasize : (int) sizeof (image)) ; else memset (data, 0xFF, datasize) ; if (strc && datasize > 0) memset (data, 0xFF, datasize) ; }
+									if (sf && query) { meta0 = pk_meta_hash (sf) ; dev0 = md_hash (&dev) ; }
 									INLIB (r = sf_command (sf, id, data, datasize)) ;
 									vl_note ("sf_command returned %d", r) ;
+									/* the same oracles as in the grid, so that a replay of one call reproduces its verdict */
+									if (strc && kind > 0 && datasize >= 1 && memchr (data, 0, datasize) == NULL)
+										vl_violation (rt_sig ("%s|no-nul-within-datasize", rs), "datasize %d: no NUL terminator inside the buffer", datasize) ;
+									if (sf && query && (pk_meta_hash (sf) != meta0 || md_hash (&dev) != dev0))
+										vl_violation (rt_sig ("%s|query-changed-state", rs), "datasize %d (returned %d): positions, settings, metadata or file bytes changed", datasize, r) ;
 									free (data) ; if (sf) INLIB (sf_close (sf)) ;
 									vl_end (1, r) ;
 									}
